@@ -3,6 +3,7 @@ package c20svc
 import (
 	"encoding/json"
 	"fmt"
+	"math/rand"
 	"os"
 	"os/exec"
 	"path/filepath"
@@ -230,7 +231,8 @@ type stats struct {
 	mu                                                sync.Mutex // tlcStates and heldMiss are written by the validating goroutine
 	sessions, events, requests, callbacks, nontrivial int
 	closed, exited, noExit, cancelled, held, heldMiss int
-	crashes, hangs                                    int
+	crashes, hangs, pipe, pipeRetries                 int
+	pipeLabels                                        map[string]int
 	profiles                                          map[string]int
 	kinds                                             map[string]int
 	tlcStates                                         int64
@@ -275,7 +277,7 @@ func handleRejected(r *core.Run, o sessionOpts, s *session, v *verdict, st *stat
 		}
 		what := fmt.Sprintf("session of the real `esbuild --service` rejected by ServiceTrace (violated=%q) at event %d of %d (packets of key %d): %v%s", v.violated, v.pos, len(s.Events), v.badKey, rejected, extra)
 		r.Violation(map[string]interface{}{"kind": "trace-rejected", "event": rejected},
-			what, map[string]interface{}{"seed": s.Seed, "profile": s.Profile, "args": s.Args, "rejected_at": v.pos, "trace": s.Events, "packets": s.Log, "tlc_tail": v.tail})
+			what, map[string]interface{}{"seed": s.Seed, "profile": s.Profile, "args": s.Args, "rejected_at": v.pos, "trace": s.Events, "packets": s.Log, "tlc_tail": v.tail, "pipe": s.Pipe})
 	}
 	if !s.HeldUsed {
 		report(s, v, "")
@@ -412,8 +414,67 @@ func Run(r *core.Run) {
 			tmu.Unlock()
 		})
 	}()
+	// (1b) the byte level of the read loop: ServiceStream.tla.  The design with
+	// the per-packet clone must satisfy PayloadIntegrity / BufferNotReused /
+	// DecodeLoop for every way of cutting 3 packets into <= 3 writes (and be
+	// live); without the clone TLC must find the reuse (negative control).  The
+	// chunkings (cut positions + which cuts the service had caught up at) are
+	// exported for the pipelining sessions below.
+	var chunkings []*chunking
+	streamDone := make(chan struct{})
+	go func() {
+		defer close(streamDone)
+		seen := map[string]bool{}
+		// quick: 2 packets cut into <= 3 writes, safety + liveness in one run;
+		// thorough: 3 packets (ServiceStream.clone.cfg) and liveness with a read
+		// buffer smaller than a packet (ServiceStream.live.cfg)
+		streamCfg := "ServiceStream.quick.cfg"
+		if r.Thorough() {
+			streamCfg = "ServiceStream.clone.cfg"
+		}
+		res := tlcrun.MustHold(r, tlcrun.Options{Module: "ServiceStream", Config: streamCfg, Workers: 2, TimeoutSec: 1500,
+			OnCase: func(raw []byte) {
+				ch := &chunking{Src: "tlc"}
+				if err := json.Unmarshal(raw, ch); err != nil {
+					r.Infra("ServiceStream case: %v", err)
+					return
+				}
+				if !seen[ch.key()] {
+					seen[ch.key()] = true
+					chunkings = append(chunkings, ch)
+				}
+			}})
+		if res != nil {
+			tmu.Lock()
+			tlcInfo["stream."+strings.TrimSuffix(strings.TrimPrefix(streamCfg, "ServiceStream."), ".cfg")] = map[string]interface{}{"generated": res.Generated, "distinct": res.Distinct, "depth": res.Depth, "chunkings": len(chunkings), "wall_s": res.Wall.Seconds()}
+			tmu.Unlock()
+		}
+	}()
+	streamRest := make(chan struct{})
+	go func() {
+		defer close(streamRest)
+		if !r.Thorough() {
+			// (liveness is part of ServiceStream.quick.cfg)
+		} else if res := tlcrun.MustHold(r, tlcrun.Options{Module: "ServiceStream", Config: "ServiceStream.live.cfg", Workers: 2, TimeoutSec: 900}); res != nil {
+			tmu.Lock()
+			tlcInfo["stream.live"] = map[string]interface{}{"generated": res.Generated, "distinct": res.Distinct, "depth": res.Depth}
+			tmu.Unlock()
+		}
+		neg, err := tlcrun.Run(r, tlcrun.Options{Module: "ServiceStream", Config: "ServiceStream.noclone.cfg", Workers: 1, TimeoutSec: 900, KeepOutput: true})
+		if err != nil {
+			r.Infra("%v", err)
+		} else if neg.Violated != "BufferNotReused" {
+			r.Infra("model ServiceStream.noclone.cfg: expected the counterexample for BufferNotReused (decoding in place from the stream buffer), TLC reports %q", neg.Violated)
+		} else {
+			tmu.Lock()
+			tlcInfo["stream.noclone"] = map[string]interface{}{"expected_counterexample": "BufferNotReused", "found": neg.Violated, "distinct": neg.Distinct}
+			tmu.Unlock()
+		}
+	}()
 	defer func() {
 		<-designDone
+		<-streamDone
+		<-streamRest
 		tmu.Lock()
 		r.Set("service_tlc", tlcInfo)
 		tmu.Unlock()
@@ -451,6 +512,68 @@ func Run(r *core.Run) {
 			validate(r, o, ss, st)
 		}
 	}()
+	// account judges one finished session (crash, hang, protocol error) and
+	// says whether its trace goes to the validation
+	account := func(s *session, oo sessionOpts) bool {
+		st.sessions++
+		st.profiles[s.Profile]++
+		st.events += len(s.Events)
+		st.requests += s.Requests
+		st.callbacks += s.Callback
+		st.cancelled += s.Cancelled
+		for k, v := range s.Kinds {
+			st.kinds[k] += v
+		}
+		if s.Profile == "close" {
+			st.closed++
+		}
+		if s.HeldUsed {
+			st.held++
+		}
+		r.Case(fmt.Sprintf("svc-%d-%d", s.Seed, len(s.Events)), s.MaxIn >= 2)
+		if s.MaxIn >= 2 {
+			st.nontrivial++
+		}
+		if s.ID%10 == 0 {
+			r.Sample(map[string]interface{}{"service_session": s.ID, "seed": s.Seed, "profile": s.Profile, "args": s.Args, "requests": s.Requests, "callbacks": s.Callback, "max_inflight": s.MaxIn, "events": len(s.Events), "kinds": s.Kinds})
+		}
+		if s.Profile == "crash" {
+			r.Logf("service: replay of the Service.crash.cfg counterexample (rebuild, cancel, dispose in one write), session %d: crash=%q exit=%d responses=%v", s.ID, s.Crash, s.ExitCode, s.Kinds)
+		}
+		replay := map[string]interface{}{"seed": s.Seed, "profile": s.Profile, "args": s.Args, "race": oo.race, "packets": s.Log, "stderr": s.Stderr, "pipe": s.Pipe}
+		switch {
+		case s.ProtoErr != "":
+			r.Violation(map[string]interface{}{"kind": "protocol", "what": s.ProtoErr}, "the service wrote a malformed packet: "+s.ProtoErr, replay)
+		case s.Crash != "":
+			st.crashes++
+			inEsbuild := strings.Contains(s.Stderr, "github.com/evanw/esbuild/") || strings.Contains(s.Stderr, "cmd/esbuild/") || strings.Contains(s.Stderr, "main.(*serviceType)")
+			if strings.HasPrefix(s.Crash, "exit-") || !inEsbuild {
+				if s.Closed {
+					// a write to a closed pipe etc.: not the service's fault
+					r.Infra("service session %d ended with status %d after stdin was closed, stderr does not point into esbuild:\n%s", s.ID, s.ExitCode, tailLines(s.Stderr, 10))
+				} else {
+					r.Violation(map[string]interface{}{"kind": "abnormal-exit", "code": s.ExitCode}, fmt.Sprintf("the service process ended with status %d although stdin was open", s.ExitCode), replay)
+				}
+			} else {
+				r.Violation(map[string]interface{}{"kind": "crash", "crash": s.Crash, "frame": s.Frame},
+					fmt.Sprintf("the service process died (%s) in %s", s.Crash, s.Frame), replay)
+			}
+		case s.Hang != "":
+			st.hangs++
+			r.Violation(map[string]interface{}{"kind": "hang", "seed": s.Seed}, "service: "+s.Hang+" (reproduced with the same seed)", replay)
+		case s.HarnessErr != "":
+			r.Infra("service session %d (seed %d, %s): %s", s.ID, s.Seed, s.Profile, s.HarnessErr)
+		case s.NoExit != "":
+			st.noExit++
+			r.Violation(map[string]interface{}{"kind": "no-exit-after-stdin-closed", "cause": s.NoExit},
+				"the service process does not exit after stdin was closed: "+s.NoExit, replay)
+		}
+		if s.Exited && s.ExitCode == 0 {
+			st.exited++
+		}
+		// the trace of a session that crashed or was killed is still validated (as far as it goes)
+		return s.ProtoErr == "" && len(s.Events) > 0
+	}
 	sessStart := time.Now()
 	nsess := r.Pick(40, 1000)
 	if v, err := strconv.Atoi(os.Getenv("VERIF_SVC_SESSIONS")); err == nil && v > 0 { // developer switch
@@ -458,7 +581,7 @@ func Run(r *core.Run) {
 	}
 	batch := r.Pick(20, 40)
 	for start := 0; start < nsess && r.Violations() <= 5; start += batch {
-		if r.Thorough() && time.Since(sessStart) > 18*time.Minute {
+		if r.Thorough() && time.Since(sessStart) > 11*time.Minute {
 			r.Logf("service: time budget of the session driver reached after %d of %d sessions", start, nsess)
 			break
 		}
@@ -483,69 +606,25 @@ func Run(r *core.Run) {
 		})
 		var ok []*session
 		for _, s := range out {
-			st.sessions++
-			st.profiles[s.Profile]++
-			st.events += len(s.Events)
-			st.requests += s.Requests
-			st.callbacks += s.Callback
-			st.cancelled += s.Cancelled
-			for k, v := range s.Kinds {
-				st.kinds[k] += v
-			}
-			if s.Profile == "close" {
-				st.closed++
-			}
-			if s.HeldUsed {
-				st.held++
-			}
-			r.Case(fmt.Sprintf("svc-%d-%d", s.Seed, len(s.Events)), s.MaxIn >= 2)
-			if s.MaxIn >= 2 {
-				st.nontrivial++
-			}
-			if s.ID%10 == 0 {
-				r.Sample(map[string]interface{}{"service_session": s.ID, "seed": s.Seed, "profile": s.Profile, "args": s.Args, "requests": s.Requests, "callbacks": s.Callback, "max_inflight": s.MaxIn, "events": len(s.Events), "kinds": s.Kinds})
-			}
-			if s.Profile == "crash" {
-				r.Logf("service: replay of the Service.crash.cfg counterexample (rebuild, cancel, dispose in one write), session %d: crash=%q exit=%d responses=%v", s.ID, s.Crash, s.ExitCode, s.Kinds)
-			}
-			replay := map[string]interface{}{"seed": s.Seed, "profile": s.Profile, "args": s.Args, "race": oo.race, "packets": s.Log, "stderr": s.Stderr}
-			switch {
-			case s.ProtoErr != "":
-				r.Violation(map[string]interface{}{"kind": "protocol", "what": s.ProtoErr}, "the service wrote a malformed packet: "+s.ProtoErr, replay)
-			case s.Crash != "":
-				st.crashes++
-				inEsbuild := strings.Contains(s.Stderr, "github.com/evanw/esbuild/") || strings.Contains(s.Stderr, "cmd/esbuild/") || strings.Contains(s.Stderr, "main.(*serviceType)")
-				if strings.HasPrefix(s.Crash, "exit-") || !inEsbuild {
-					if s.Closed {
-						// a write to a closed pipe etc.: not the service's fault
-						r.Infra("service session %d ended with status %d after stdin was closed, stderr does not point into esbuild:\n%s", s.ID, s.ExitCode, tailLines(s.Stderr, 10))
-					} else {
-						r.Violation(map[string]interface{}{"kind": "abnormal-exit", "code": s.ExitCode}, fmt.Sprintf("the service process ended with status %d although stdin was open", s.ExitCode), replay)
-					}
-				} else {
-					r.Violation(map[string]interface{}{"kind": "crash", "crash": s.Crash, "frame": s.Frame},
-						fmt.Sprintf("the service process died (%s) in %s", s.Crash, s.Frame), replay)
-				}
-			case s.Hang != "":
-				st.hangs++
-				r.Violation(map[string]interface{}{"kind": "hang", "seed": s.Seed}, "service: "+s.Hang+" (reproduced with the same seed)", replay)
-			case s.NoExit != "":
-				st.noExit++
-				r.Violation(map[string]interface{}{"kind": "no-exit-after-stdin-closed", "cause": s.NoExit},
-					"the service process does not exit after stdin was closed: "+s.NoExit, replay)
-			}
-			if s.Exited && s.ExitCode == 0 {
-				st.exited++
-			}
-			// the trace of a session that crashed or was killed is still validated (as far as it goes)
-			if s.ProtoErr == "" && len(s.Events) > 0 {
+			if account(s, oo) {
 				ok = append(ok, s)
 			}
 		}
 		jobs <- ok
 	}
+	// (3) pipelining sessions: waves of byte-payload packets cut at the TLC-exported chunkings
+	<-streamDone
+	if len(chunkings) == 0 {
+		r.Infra("ServiceStream.clone.cfg exported no chunking")
+	} else {
+		runPipe(r, exes, chunkings, jobs, st, account)
+	}
 	close(jobs)
 	<-valDone
+	r.Set("service_pipe_sessions", st.pipe)
+	r.Set("service_pipe_hangs_not_reproduced", st.pipeRetries)
+	r.Set("service_pipe_cut_labels", st.pipeLabels)
+	r.Set("service_pipe_rule", "a pipelining session = one real `esbuild --service` process, a wave of 3 packets with byte-array payloads (transform input / build stdinContents / on-load contents, each with a marker of its own) written cut at a chunking exported by TLC from ServiceStream.tla (label-first: region of each cut x first/later packet x flushed) or a seeded random one; every response is checked against the request's own payload (transform: byte-equal to api.Transform computed in the harness; builds: markers in the output files) by ServiceTrace (ObsOK)")
 	r.Set("service_sessions", st.sessions)
 	r.Set("service_events", st.events)
 	r.Set("service_requests", st.requests)
@@ -568,3 +647,87 @@ func Run(r *core.Run) {
 
 // developer entry point: `bin/check C20S` runs the service part alone
 func init() { core.Register("C20S", Run) }
+
+// runPipe runs the pipelining sessions: quick = 12 chunkings (label-first) x
+// the 3 payload kinds; thorough = 20 label-first + 20 seeded random ones, mixed
+// waves, every session on the plain and on the -race binary.
+func runPipe(r *core.Run, exes []sessionOpts, all []*chunking, jobs chan []*session, st *stats, account func(*session, sessionOpts) bool) {
+	rnd := rand.New(rand.NewSource(r.Seed*7919 + 31))
+	picked := pickChunkings(all, r.Pick(12, 20), rnd)
+	if r.Thorough() {
+		for i := 0; i < 20; i++ {
+			picked = append(picked, randomChunking(rnd, 2+rnd.Intn(3)))
+		}
+	}
+	kindSets := [][]string{{"transform"}, {"stdin"}, {"onload"}}
+	type job struct {
+		kinds []string
+		ch    *chunking
+		exe   sessionOpts
+	}
+	var js []job
+	st.pipeLabels = map[string]int{}
+	for _, ch := range picked {
+		for _, l := range ch.cutLabels() {
+			st.pipeLabels[l]++
+		}
+		sets := kindSets
+		if r.Thorough() {
+			mixed := make([]string, ch.NPkt)
+			for i := range mixed {
+				mixed[i] = []string{"transform", "stdin", "onload"}[rnd.Intn(3)]
+			}
+			sets = append(append([][]string{}, kindSets...), mixed)
+		}
+		for _, ks := range sets {
+			// (a wave has at least 3 packets: the chunkings of the 2-packet model
+			// cut the first two, the third follows whole)
+			nk := ch.NPkt
+			if nk < 3 {
+				nk = 3
+			}
+			kinds := make([]string, nk)
+			for i := range kinds {
+				kinds[i] = ks[i%len(ks)]
+			}
+			for _, exe := range exes {
+				js = append(js, job{kinds, ch, exe})
+			}
+		}
+	}
+	batch := 48
+	for start := 0; start < len(js) && r.Violations() <= 5; start += batch {
+		n := batch
+		if start+n > len(js) {
+			n = len(js) - start
+		}
+		out := make([]*session, n)
+		core.Parallel(n, 8, func(i int) {
+			j := js[start+i]
+			id := 100000 + start + i
+			seed := r.Seed*1000003 + int64(id)*7919 + 17
+			out[i] = runPipeSession(j.exe, id, seed, j.kinds, j.ch)
+			if out[i].Hang != "" {
+				// a hang is a verdict only if the same session hangs again; the
+				// repetition is what gets validated otherwise (counted, logged)
+				again := runPipeSession(j.exe, id, seed, j.kinds, j.ch)
+				if again.Hang == "" {
+					r.Logf("service session %d (seed %d): %s -- not reproduced with the same seed, the repetition is validated instead", id, seed, out[i].Hang)
+					st.mu.Lock()
+					st.pipeRetries++
+					st.mu.Unlock()
+					out[i] = again
+				}
+			}
+		})
+		var ok []*session
+		for i, s := range out {
+			st.pipe++
+			if account(s, js[start+i].exe) {
+				ok = append(ok, s)
+			}
+		}
+		jobs <- ok
+	}
+	r.Logf("service: %d pipelining sessions (%d chunkings of %d exported by TLC; cut labels %v)", st.pipe, len(picked), len(all), st.pipeLabels)
+}
